@@ -116,7 +116,9 @@ def run_perturbed_twin(Mrec, j, pool, rec, what):
         case2 = dict(Mrec)
         case2["decls"] = perturb_decls(Mrec["decls"], j, what)
         case2["node"] = perturb_node(Mrec["node"], j)
-        touch_expr(case2, pool, rec)
+        touch_expr(case2, pool, rec, rotate=(1 + j % 3) if what in (0, 4) else 0)
+        if what == 4:
+            touch_expr(case2, pool, rec, rotate=0)
     else:
         prob2 = dict(Mrec["prob"])
         prob2["decls"] = perturb_decls(prob2["decls"], j, what)
@@ -130,7 +132,7 @@ def run_perturbed_twin(Mrec, j, pool, rec, what):
     rec.cells["collision:same-recipe-other-data-or-structure"] += 1
 
 
-def touch_expr(case, pool, rec):
+def touch_expr(case, pool, rec, rotate=0):
     """every observation route of observe_expr on a prefix model, each on its own (a structural change may rename variables:
     the variable list is M's list extended by the model's own variables, missing point coordinates are filled in)"""
     from optyx.core import autodiff as AD
@@ -141,6 +143,10 @@ def touch_expr(case, pool, rec):
     e = b.S(case["node"])
     own = sorted(get_all_variables(e), key=lambda v: v.name)
     names = list(case["V"]) + [v.name for v in own if v.name not in case["V"]]
+    if rotate and len(names) > 1:
+        # the same variables at other positions of the variable list
+        r_ = rotate % len(names)
+        names = names[r_:] + names[:r_]
     Vobjs = b.variables(names)
     pt = dict(case["points"][0])
     for i, nm in enumerate(names):
@@ -489,13 +495,23 @@ def run(ctx, rec):
         for wrap in range(3):
             if not ctx.mine(fi):
                 continue
-            if ctx.tier == "quick" and (fi + wrap + ctx.seed) % 3:
-                continue
             if rec.out_of_time():
                 break
             nd = node if wrap == 0 else (["bin", "-", node, ["raw", 0.5, "float"]] if wrap == 1 else ["bin", "*", ["raw", 2.0, "float"], node])
+            if ctx.tier == "quick":
+                # quick: one order per variable-list relation (a superset relation always first: the relation with most room for
+                # position-dependent state); thorough: both orders on a random relation
+                rels = [["superset", "superset_permuted"][(fi + wrap + ctx.seed) % 2], ["exact", "permuted"][(fi + wrap + ctx.seed) % 2]]
+                for order, vrel in zip(("prefix-then-M", "M-prefix-M"), rels):
+                    try:
+                        case = X.finish_case(rng, X.D0, nd, vrel, "directed:" + fam, n_points=1)
+                    except (R.ShapeError, R.OutOfModel):
+                        case = None
+                    if case is not None and len(case["V"]) <= 12:
+                        run_expr_pair(rec, rng, twin, 6, order, False, directed=case)
+                continue
             try:
-                case = X.finish_case(rng, X.D0, nd, rng.choice(X.VRELS), "directed:" + fam, n_points=1)
+                case = X.finish_case(rng, X.D0, nd, X.VRELS[(fi // 16 + wrap + ctx.seed) % 4] if ctx.tier == "quick" else rng.choice(X.VRELS), "directed:" + fam, n_points=1)
             except (R.ShapeError, R.OutOfModel):
                 case = None
             if case is None or len(case["V"]) > 12:
